@@ -169,7 +169,7 @@ example : Sema.Gen.FactsC10.dispatchRange = "a2 of v1.indexSchema" ∧
 
 /-- … which is the case "absent before and after" -/
 example : Sema.Gen.FactsC10.operationCases =
-    ["v6 == nil && v7 != nil => opInsert", "v6 != nil && v7 != nil => opUpdate", "v6 != nil && v7 == nil => opDelete", "v6 == nil && v7 == nil => opSkip"] := by decide
+    ["v5 == nil && v6 != nil => opInsert", "v5 != nil && v6 != nil => opUpdate", "v5 != nil && v6 == nil => opDelete", "v5 == nil && v6 == nil => opSkip"] := by decide
 
 /-! ### non-vacuity and the defect of the unrepaired bookkeeping -/
 
